@@ -139,6 +139,11 @@ func (g *Gen) instr(in ssa.Instruction) {
 		et, _ := deref(x.Type())
 		o := g.newObject(g.cur)
 		g.zeroObject(g.cur, o, et)
+		if g.isHeapType(et) {
+			g.assume(sEq(app("objtype", o), fmt.Sprint(g.typeID(et))))
+		} else {
+			g.assume(sEq(app("objtype", o), "0"))
+		}
 		g.defineVal(x, g.mkptr(o, g.M.IxLit(0)))
 	case *ssa.BinOp:
 		a, b := g.val(x.X), g.val(x.Y)
